@@ -11,6 +11,7 @@
 #include <core/sync.h>
 
 #include <core/core.h>
+#include <core/verif.h>
 
 /**
  * @brief Synchronizes threads on a barrier
@@ -25,15 +26,18 @@ bool sync_thread_barrier(void)
 	static atomic_uint cs[2]; // FIXME: this makes this barrier stateful with respect to the threads used
 	atomic_uint *c = cs + (phase & 1U);
 
+	VERIF_YIELD(VP_BARRIER_ENTER);
 	if(phase & 2U) {
 		l = atomic_fetch_add_explicit(c, -1, memory_order_acq_rel) == 1;
 		do {
+			VERIF_YIELD(VP_BARRIER_SPIN_DOWN);
 			r = atomic_load_explicit(c, memory_order_relaxed);
 		} while(r);
 	} else {
 		l = !atomic_fetch_add_explicit(c, 1, memory_order_acq_rel);
 		rid_t thr_cnt = global_config.n_threads;
 		do {
+			VERIF_YIELD(VP_BARRIER_SPIN_UP);
 			r = atomic_load_explicit(c, memory_order_relaxed);
 		} while(r != thr_cnt);
 	}
